@@ -11,6 +11,16 @@
 //	                 functions run simultaneously and Wait() returns.
 //	-mode deflimit   prints the capacity NewLimiter gives for limits below 1 (the property: 3,
 //	                 whatever GOMAXPROCS the process was started with).
+//	-mode endings    the ways a submitted function can end that depend on how the process was
+//	                 STARTED: panic(nil) is run under the GODEBUG the parent gave this process
+//	                 (unset = Go >= 1.21 semantics of this harness module, the handler sees a
+//	                 *runtime.PanicNilError; GODEBUG=panicnil=1 = what a main module with
+//	                 `go` < 1.21 — golib's own go.mod — gets: recover() returns nil), plus
+//	                 runtime.Goexit, a panic aborted by Goexit in a deferred function, re-panics
+//	                 in deferred functions. For each ending every slot is used once by such a
+//	                 function; afterwards n functions must be inside at once and Wait() must
+//	                 return (no slot, no WaitGroup count leaked); the number of handler calls
+//	                 is printed.
 package main
 
 import (
@@ -93,6 +103,75 @@ func round(kind string, limit int, l *goz.Limiter) {
 	fmt.Printf("CHILD nohandler kind=%s limit=%d cap=%d inside=%d\n", kind, limit, n, got)
 }
 
+// panicNilIsOld: does recover() return nil for panic(nil) in THIS process (GODEBUG panicnil=1)?
+func panicNilIsOld() (old bool) {
+	defer func() { old = recover() == nil }()
+	var nothing any
+	panic(nothing)
+}
+
+func endings() []struct {
+	name string
+	fn   func()
+} {
+	return []struct {
+		name string
+		fn   func()
+	}{
+		{"panic(nil)", func() { var nothing any; panic(nothing) }},
+		{"Goexit", func() { runtime.Goexit() }},
+		{"panic-then-Goexit-in-defer", func() { defer runtime.Goexit(); panic(5) }},
+		{"repanic-in-defer", func() { defer func() { _ = recover(); panic(6) }(); panic("first") }},
+		{"panic-in-defer-while-panicking", func() { defer func() { panic(7) }(); panic("first") }},
+		{"repanic-nil-in-defer", func() { defer func() { _ = recover(); var nothing any; panic(nothing) }(); panic("first") }},
+		{"recovered-by-itself", func() { defer func() { _ = recover() }(); panic("first") }},
+	}
+}
+
+func endingsRound(limit int) {
+	old := 0
+	if panicNilIsOld() {
+		old = 1
+	}
+	for _, e := range endings() {
+		e := e
+		var handled atomic.Int64
+		l := goz.NewLimiter(limit).SetPanicHandler(func(any) { handled.Add(1) })
+		n := chanCap(l)
+		what := "ending " + e.name
+		// every slot is used once by a function that ends this way
+		waitOrDie(what, "submitting the functions", func() {
+			for i := 0; i < n; i++ {
+				l.Go(e.fn)
+			}
+		})
+		waitOrDie(what, "Wait() after the functions have ended", func() { l.Wait() })
+		var inside atomic.Int64
+		release := make(chan struct{})
+		submitted := make(chan struct{})
+		go func() {
+			for i := 0; i < n; i++ {
+				l.Go(func() { inside.Add(1); <-release })
+			}
+			close(submitted)
+		}()
+		deadline := time.Now().Add(5 * time.Second)
+		for inside.Load() < int64(n) && time.Now().Before(deadline) {
+			time.Sleep(200 * time.Microsecond)
+		}
+		got := inside.Load()
+		fmt.Printf("CHILD endings ending=%s panicnil=%d limit=%d cap=%d inside=%d handled=%d\n", e.name, old, limit, n, got, handled.Load())
+		if got < int64(n) {
+			// slots leaked: the submitter is stuck in Go(); leave it (the parent reports the line)
+			close(release)
+			continue
+		}
+		close(release)
+		<-submitted
+		waitOrDie(what, "Wait() after the blocking functions", func() { l.Wait() })
+	}
+}
+
 func waitOrDie(kind, what string, f func()) {
 	done := make(chan struct{})
 	go func() { f(); close(done) }()
@@ -108,7 +187,7 @@ func waitOrDie(kind, what string, f func()) {
 }
 
 func main() {
-	mode := flag.String("mode", "nohandler", "nohandler | deflimit")
+	mode := flag.String("mode", "nohandler", "nohandler | deflimit | endings")
 	flag.Parse()
 	switch *mode {
 	case "nohandler":
@@ -125,6 +204,11 @@ func main() {
 			fmt.Printf("CHILD deflimit limit=%d cap=%d gomaxprocs=%d\n", limit, chanCap(goz.NewLimiter(limit)), runtime.GOMAXPROCS(0))
 		}
 		fmt.Println("CHILD done deflimit")
+	case "endings":
+		for _, limit := range []int{1, 2} {
+			endingsRound(limit)
+		}
+		fmt.Println("CHILD done endings")
 	default:
 		os.Exit(2)
 	}
